@@ -216,7 +216,7 @@ PROPS = {
                             'the per-user bound is stated for tokens with at most 18 external decimals (more: known finding)']},
     'C12': {'suites': hub_suite(hostile=False), 'trusted_base': HUB_TB, 'rule': HUB_RULE,
             'assumptions': ['chain ids are prefix-free', 'expiry is decided on whole-millisecond block times (the harness only uses such times)']},
-    'C13': {'suites': hub_suite(hostile=False) + [
+    'C13': {'gen': ['gen_srcfacts.py'], 'suites': hub_suite(hostile=False) + [
                 # the clock of the timeout sweep: the stored external height moves only when the tally applies a claim
                 {'name': 'votesh', 'quick': '-n 150 -ops 60', 'thorough': '-n 2000 -ops 120', 'shards': {'quick': 2, 'thorough': 16}}],
             'trusted_base': HUB_TB + ['coq/Hub/VotesHeight.v wraps the vote model (C02/C03) with the external heights the claims report; tied to /repo by the votesh suite (real msg server + EndBlocker, sub-quorum and conflicting claims with different heights, key rotations, staking changes)'],
@@ -248,7 +248,7 @@ TEXT = {
     'C08': {'technique': 'source-to-Coq translator (Hub2.sol conditions interpreted by the model) + Coq proofs of the signature-threshold loop + co-execution with the compiled contract on a simulated chain',
             'level': 'Theorems for all signer sets, signature subsets and power distributions: the contract\'s check accepts only if validators of its current set with valid signatures hold strictly more than the threshold, and (no invalid signature supplied) exactly then; '
                      'updateValset / submitBatch additionally need the true current set, a larger nonce, block < timeout and funds, and with those are accepted; every accepted operation advances the event nonce by exactly one, a refused one changes nothing; nonces never decrease; '
-                     'Minter multisig threshold 667/1000 of floor-weights implies >= 66.7% of power. Monitors evaluate the same on the compiled contract. PARTIAL: "fed back through attestation" is covered by composition with C03/C09 theorems, not by one end-to-end model; logic calls are not modelled.',
+                     'Minter multisig threshold 667/1000 of floor-weights implies >= 66.7% of power. Monitors evaluate the same on the compiled contract. On the contract model a batch nonce / signer-set nonce executes at most once whatever happens in between; on the hub a signer set leaves the store only after a higher nonce was observed as executed and a batch is withdrawn only after its timeout height was observed. PARTIAL: "fed back through attestation" is covered by composition with C03/C09 theorems, not by one end-to-end model; logic calls are not modelled.',
             'note': 'Trusted: Coq kernel, the translator, extraction + driver, Go harness + go-ethereum simulated backend; bytecode/source correspondence of Hub2.go is assumed.'},
     'C15': {'technique': 'Coq models of export/import on the state models (preservation theorems, continuation theorem, kernel-checked refutation witnesses) + co-execution of the real ExportGenesis -> JSON -> InitGenesis inside generated histories',
             'level': 'The property is FALSE of the code and is decided as such: theorems prove what survives (pool, batches with sequence numbers, batch nonce, outgoing sequence, observed external height, tokens, params, vote records and validator nonces, prices, holders, current delegate keys, outgoing txs) '
@@ -301,7 +301,7 @@ TEXT = {
             'level': 'Theorems: cancel succeeds only for an unbatched entry of that chain and its sender; the entry is gone afterwards (pool and batches); hub-origin refund = recorded amounts converted back, exact for >=18 decimals, bounded loss otherwise ("exactly" refuted for <18 decimals: known finding). Monitors check authorisation, removal, amount, destination and expiry on the implementation.',
             'note': _HUB_NOTE},
     'C13': {'technique': 'Coq characterisation (iff) of batch removal by sweep and by execution + correspondence',
-            'level': 'Theorems (every state satisfying the proved invariant): the timeout sweep removes a batch iff it is of that chain with timeout below the observed height; Minter batches are never withdrawn by BeginBlocker; an execution removes exactly the batch and (non-Minter) the older same-token batches; the last observed external height (the clock of the sweep) is moved by the tally alone and only to the height of a claim it has just applied (with C02: a claim that had the quorum). Monitors check the same on the implementation, with contract-consistent external executions.',
+            'level': 'Theorems (every state satisfying the proved invariant): the timeout sweep removes a batch iff it is of that chain with timeout below the observed height; Minter batches are never withdrawn by BeginBlocker; an execution removes exactly the batch and (non-Minter) the older same-token batches; the last observed external height (the clock of the sweep) is moved by the tally alone and only to the height of a claim it has just applied (with C02: a claim that had the quorum); composed with the contract model of C08: a batch the sweep withdraws is rejected by submitBatch at every block at or after the observed height. Monitors check the same on the implementation, with contract-consistent external executions.',
             'note': _HUB_NOTE},
     'C19': {'technique': 'Coq inequalities over Z for arbitrary batches + correspondence',
             'level': 'Theorems for all batches/fee spreads/power splits: reimbursement <= total fee, sum of refunds <= surplus, each refund <= own fee (<=18 decimals), commission shares floor-proportional with sum <= collected, fee record within [0, fee]; the per-user bound is refuted for >18 decimals by a kernel-checked witness. Monitors on the implementation.',
